@@ -285,7 +285,7 @@ func scenarioConcSel(t *traceWriter, rng *rand.Rand, onlyMultiLog bool) {
 	defer os.RemoveAll(scratch)
 	execNo := 0
 	maxSched := pick(80, 4000)
-	runAll := func(storeKind string, cs []concCase, limit int) {
+	runAll := func(storeKind string, cs []concCase, limit, rndLimit int) {
 		for _, c := range cs {
 			choices := []int{}
 			count := 0
@@ -378,7 +378,7 @@ func scenarioConcSel(t *traceWriter, rng *rand.Rand, onlyMultiLog bool) {
 			}
 			// random schedules
 			rnd := 0
-			for ; rnd < limit/2 && !hungFam; rnd++ {
+			for ; rnd < rndLimit && !hungFam; rnd++ {
 				execNo++
 				if _, hung := runConcExec(t, execNo, storeKind, scratch, c, key, wkeys, nil, func(_ int, enabled []int, _ map[int]string) int { return rng.Intn(len(enabled)) }); hung {
 					break
@@ -387,13 +387,15 @@ func scenarioConcSel(t *traceWriter, rng *rand.Rand, onlyMultiLog bool) {
 			t.line("# conc case=%s store=%s schedules=%d preempt=%d random=%d", c.name, storeKind, count, fam, rnd)
 		}
 	}
-	runAll("mem", cases, maxSched)
-	runAll("sqlfile", cases, maxSched)
 	if thorough() {
-		runAll("mem", cases3, maxSched*10)
-		runAll("sqlfile", cases3, 250)
+		runAll("mem", cases, maxSched, 1000)
+		runAll("sqlfile", cases, 300, 150)
+		runAll("mem", cases3, 10000, 2000)
+		runAll("sqlfile", cases3, 120, 80)
 	} else {
-		runAll("mem", cases3, 60)
+		runAll("mem", cases, maxSched, 40)
+		runAll("sqlfile", cases, 40, 20)
+		runAll("mem", cases3, 60, 40)
 	}
 	// free-running rounds (no scheduler): many goroutines, outcomes still have to be linearizable
 	rounds := pick(20, 1000)
